@@ -13,7 +13,9 @@ CLAIMS = {
         category="other",
         text="Hybrid. Proved (pyvc, from the current source of hdl21.slice:_slice_inner, for all widths, starts and "
              "stops, one scenario per constant step): the result denotes exactly Python's selection, width == number "
-             "selected, bounds inside the parent, empty/out-of-range rejected, only ValueError escapes. Bounded "
+             "selected, bounds inside the parent and tight enough that stepping from the first position enumerates the "
+             "selection, empty/out-of-range rejected, only ValueError escapes; _indices returns exactly that "
+             "enumeration. Bounded "
              "(run-time contract on the real code, labelled bounded): the same against Python list slicing on the "
              "exhaustive grid W<=5 (7 thorough), and nested slice/concat resolution (_list_slice, _resolve_concat, "
              "width) against explicit bit lists on an exhaustive small family plus seeded random expressions.",
@@ -31,7 +33,8 @@ CLAIMS = {
              "over 8 connectable kinds; and ELABORATED histories: call/setattr/connect/replace/disconnect sequences "
              "with port references taken before and after re-connections, completed to a valid mapping, exported, "
              "the exported nets compared with the partition computed from the history alone. Instance.__init__ "
-             "establishes the invariants (proved); an AST audit shows nothing else writes conns/_connected_ports.",
+             "establishes the invariants (proved); an AST audit shows nothing else writes conns/_connected_ports; "
+             "connect-by-call reaches connect() for every keyword, whatever it is called (loop body, 9 naming classes).",
         design_ref="DESIGN.md section 4 C04",
         technique="contract-based deductive verification (pyvc VCs with quantified heap invariants, z3; finite-scope "
                   "instantiation for counterexamples) + bounded run-time contract checks on operation histories",
@@ -57,7 +60,10 @@ CLAIMS = {
              "index; export_port_dir is total and name-preserving; export_connection_target dispatches Signal / Slice / Concat "
              "to a name / export_slice / export_concat and refuses anything else; find_source and handle_noconn; the "
              "per-element wiring of instance arrays (element k of n receives bits [k*w, (k+1)*w) of an n*w wide "
-             "connection, for all n, w, k: the loop body executed symbolically). Bounded (labelled): to_proto's end-to-end "
+             "connection, for all n, w, k: the loop body executed symbolically); resolve_portref records, connects and "
+             "propagates exactly once; update_ref_deps re-points connected ports, slices and concatenation parts (loop "
+             "bodies; 1-3 parts); export_concat emits the parts in reverse order (1-4 parts); export_instance appends "
+             "one Connection per conns entry. Bounded (labelled): to_proto's end-to-end "
              "postcondition - leaf-net partition, devices with parameters and top-level ports of the package equal "
              "the meaning of the design as written, computed before elaboration by an independent reference "
              "interpreter - on ~960 (quick) design programs covering every connectable feature at depth 1-3; the "
@@ -102,7 +108,8 @@ CLAIMS = {
              "export_port_dir, export_connection_target; import_connection_target returns the declared signal / the "
              "unit-step slice [bot, top] of it / delegates concatenations / refuses undeclared names and unset "
              "variants; slice round-trip lemma over the three contracts; export followed by import of a signal target "
-             "executed as one symbolic run returns the same signal.",
+             "executed as one symbolic run returns the same signal; import_concat / export_concat keep the parts in "
+             "mutually inverse order (1-4 parts, arity unrolled).",
         design_ref="DESIGN.md section 4 C11",
         technique="bounded run-time round-trip equality + pyvc proofs of export leaves",
         note=TB + "; import_concat and from_proto's module / instance loops are not under a proved contract"),
@@ -220,7 +227,10 @@ CLAIMS = {
              "(assumed); arithmetic operators have no deductive part; one known finding (28-digit context precision)"),
     "C16": dict(
         category="other",
-        text="Hybrid. Proved (pyvc): _find_signal_or_port returns the named port, else the named signal, else raises. "
+        text="Hybrid. Proved (pyvc): _find_signal_or_port returns the named port, else the named signal, else raises; "
+             "walk() continues past its two guards only for names without the ':' separator; make_name is the "
+             "':'-join of the path (1-3 instances); lemma: such joins are injective, so no designer name can collide "
+             "with a flattened path name. "
              "Bounded (labelled): leaf devices with parameters, leaf-net partition and ports of flatten(m) equal those "
              "of m for generated scalar/bus hierarchies (depth 1-3, primitive and external leaves, internal nets at "
              "every level, ':'-colliding names) and a third of the shared family; a rejection is accepted only for "
@@ -232,7 +242,10 @@ CLAIMS = {
         category="other",
         text="Hybrid. Proved (pyvc): export_save accepts exactly the five documented SaveTarget forms and carries the "
              "mode / name / comma-joined names; next_analysis_name returns Analysis<k> and increments k (distinct "
-             "names); export_sweep_variable total. Bounded (labelled): SimInputs of procedurally built, add()-built "
+             "names) and touches nothing but the counter; export_sweep_variable total; export_control / export_analysis "
+             "dispatch; export_attr appends the converted attribute to exactly one of the three lists; export_op / "
+             "export_tran carry the own name or the next fresh one and pass values through export_float; Sim.add "
+             "appends every valid attribute at the end. Bounded (labelled): SimInputs of procedurally built, add()-built "
              "and class-defined Sims, alone and in lists sharing or not sharing a testbench, compared field by field "
              "(floats: nearest float of the exact value); non-testbenches rejected.",
         design_ref="DESIGN.md section 4 C17",
@@ -258,7 +271,8 @@ CLAIMS = {
         category="other",
         text="Hybrid. Proved for all n (z3 lemmas over the array rule and Concat bit order): with c0 = Concat(P0, i), "
              "c1 = Concat(i, P1), unit 0's first port is P0, unit n-1's second port is P1, consecutive units share "
-             "exactly i[k], i[k] touches nothing else, widths satisfy the per-element rule; _seriesconn proved by pyvc. "
+             "exactly i[k], i[k] touches nothing else, widths satisfy the per-element rule; _seriesconn proved by pyvc; "
+             "connect-by-call (how Series and Wrapper wire their units) reaches connect() for every port name. "
              "Bounded (labelled): exported structure of Series for four unit cells x all ordered port pairs x n in "
              "{1,2,3,8} (1..16 thorough) by name and by Signal; rejections; MosStack == Series over (d, s); Wrapper "
              "over modules with bus and bundle ports.",
